@@ -246,6 +246,7 @@ def gen_world(rng):
             algs.append(a)
     w["algs"] = algs
     w["log_debug"] = rng.random() < 0.1  # the package logger at DEBUG level: must not change anything
+    w["fs_as"] = rng.choices(["float", "npint", "npfloat32", "int", "npfloat"], weights=[0.76, 0.07, 0.05, 0.07, 0.05])[0]
     return w
 
 
@@ -280,6 +281,20 @@ def make_alg(spec, built=None):
     if spec.get("params_as_object"):
         return cls(run_params=cls.RunParamCls(**copy.deepcopy(spec["params"])), name=name)
     return cls(name=name, **copy.deepcopy(spec["params"]))
+
+
+def user_fs(w):
+    """The sampling frequency in the numeric type the user happens to hold it in (read from a file header, say)."""
+    fs, how = w["fs"], w.get("fs_as", "float")
+    if how == "npint":
+        return np.int64(round(fs))
+    if how == "npfloat32":
+        return np.float32(fs)
+    if how == "int":
+        return int(round(fs))
+    if how == "npfloat":
+        return np.float64(fs)
+    return fs
 
 
 def make_setup(s, arrays, fs):
@@ -374,7 +389,7 @@ class World:
         self.fs.files.clear()
         self.arrays = build_arrays(w)
         self.user_hash = [[h_array(a) for a in arrs] for arrs in self.arrays]
-        self.setups = [make_setup(s, self.arrays[i], w["fs"]) for i, s in enumerate(w["setups"])]
+        self.setups = [make_setup(s, self.arrays[i], user_fs(w)) for i, s in enumerate(w["setups"])]
         self.algs = []
         self.user_shared_params = {}  # id -> parameter object that the user handed to more than one algorithm
         for a in w["algs"]:
@@ -463,6 +478,20 @@ class World:
                 _S["guard"].exit(tok)
             ent["calls"] = self.plan.calls
             self.plan.calls = None
+            ent["direct_ok"] = False
+            if ent["exc"] is not None and fresh.run_params is not None:
+                # is it the requirement check that refuses, although data, sampling frequency and parameters are all
+                # there? Then the algorithm's own run(), called directly on an instance bound the same way, completes
+                tok = _S["guard"].enter()
+                try:
+                    probe = type(alg)(name="ref_direct")
+                    probe.set_run_params(copy.deepcopy(fresh.run_params))
+                    probe._set_data(data=alg.data, fs=alg.fs)
+                    ent["direct_ok"] = probe.run() is not None
+                except Exception:
+                    ent["direct_ok"] = False
+                finally:
+                    _S["guard"].exit(tok)
             ent["alg"] = fresh
             ent["fields"] = field_hashes(fresh.result) if fresh.result is not None else None
             ent["data_mutated"] = h_data(alg.data) != before
@@ -1130,6 +1159,11 @@ def _do_run(wd, op, step, before):
             if ent["data_mutated"]:
                 wd.violate("iso.data_mutated", step, f"{w['algs'][i]['cls']}.run() alone in a fresh setup modified the bound data", i)
                 return "exc"
+            if ent["exc"] and ent.get("direct_ok"):
+                wd.violate("gate.refused_met", step,
+                           f"{w['algs'][i]['name']}: data, sampling frequency (fs={wd.algs[i].fs!r}) and run parameters are all set and "
+                           f"{w['algs'][i]['cls']}.run() completes when called directly, yet running it through a setup raises {ent['exc']}", i)
+                return "exc"
             exp[i] = ("exc", ent["exc"]) if ent["exc"] else ("ok", ent["fields"])
     outcome = "ok" if rexc is None else "exc"
     if op["op"] == "run" and ai is None:
@@ -1623,7 +1657,7 @@ def _restore_model_from(wd, sj, obj, states):
 
 
 def _fresh_setup(wd, sj):
-    wd.setups[sj] = make_setup(wd.w["setups"][sj], wd.arrays[sj], wd.w["fs"])
+    wd.setups[sj] = make_setup(wd.w["setups"][sj], wd.arrays[sj], user_fs(wd.w))
     for i, a in enumerate(wd.w["algs"]):
         if a["home"] == sj or wd.st[i].added_to == sj:
             wd.algs[i] = make_alg(a)
